@@ -532,7 +532,7 @@ impl World {
             talloc::register_gc(*a, base + 120 + i as u32);
         }
         let metrics = arena.metrics().clone();
-        metrics.set_pacing(if sc.zero_sleep { gc_arena::metrics::Pacing { sleep_factor: 0.0, min_sleep: 0, ..PACING } } else { PACING });
+        metrics.set_pacing(if sc.stw { gc_arena::metrics::Pacing::STOP_THE_WORLD } else if sc.zero_sleep { gc_arena::metrics::Pacing { sleep_factor: 0.0, min_sleep: 0, ..PACING } } else { PACING });
         let count_offset = metrics.total_gc_count().saturating_sub(nsets);
         World {
             arena: Some(arena),
